@@ -46,6 +46,11 @@ TEMPLATES = [
 def cell_cases():
     for par, route, (e, vb) in itertools.product(CELLS, ROUTES, TEMPLATES):
         yield build(route, par, e, vb, "", [400.0, 300.0], 96)
+    for par, form in itertools.product(CELLS, VB_FORMS):
+        e, vb = TEMPLATES[0]
+        c = build("object", par, e, vb, "", [400.0, 300.0], 96)
+        c["vbform"] = form
+        yield c
     for kind in ("zero-viewbox-width", "zero-viewbox-height", "zero-size-width", "zero-size-height", "incomplete-viewbox", "no-viewbox", "nested-zero-viewbox"):
         for par in (None, "xMinYMax slice", "none"):
             yield {"route": "degenerate", "kind": kind, "par": par}
@@ -73,7 +78,10 @@ def decode(d):
         vb = [dec(d, -2, 3, True), dec(d, -2, 3, True), dec(d, -1, 3, False), dec(d, -1, 3, False)]
     unit = d.choice(["", "", "px", "pt", "pc", "in"])
     caller = [gen.loguniform(d, 0, 3.5, signed=False), gen.loguniform(d, 0, 3.5, signed=False)]
-    return build(route, par, e, vb, unit, caller, d.choice([96, 72, 100, 254]))
+    c = build(route, par, e, vb, unit, caller, d.choice([96, 72, 100, 254]))
+    if route == "object":
+        c["vbform"] = d.choice(VB_FORMS)
+    return c
 
 
 def parts(tier):
@@ -121,6 +129,32 @@ def equivalent_transform(e, vb, par):
     return sx, sy, tx, ty, align, mos
 
 
+VB_FORMS = ["text,par", "text,kw", "text,kw_", "kwargs", "dict", "numbers,kw_", "numbers,kw", "copy", "assigned"]
+
+
+def make_viewbox(se, form, vbtext, nums, par):
+    """every documented way to say 'this rectangle, this preserveAspectRatio' to the Viewbox constructor"""
+    if form == "text,par":
+        return se.Viewbox(vbtext, par) if par is not None else se.Viewbox(vbtext)
+    if form == "text,kw":
+        return se.Viewbox(vbtext, preserveAspectRatio=par)
+    if form == "text,kw_":
+        return se.Viewbox(vbtext, preserve_aspect_ratio=par)
+    if form == "kwargs":
+        return se.Viewbox(viewBox=vbtext, preserveAspectRatio=par)
+    if form == "dict":
+        return se.Viewbox({"viewBox": vbtext, "preserveAspectRatio": par})
+    if form == "numbers,kw_":
+        return se.Viewbox(nums[0], nums[1], nums[2], nums[3], preserve_aspect_ratio=par)
+    if form == "numbers,kw":
+        return se.Viewbox(nums[0], nums[1], nums[2], nums[3], preserveAspectRatio=par)
+    if form == "copy":
+        return se.Viewbox(se.Viewbox(vbtext, par))
+    v = se.Viewbox(vbtext)
+    v.preserve_aspect_ratio = par
+    return v
+
+
 def check(case):
     if case["route"] == "degenerate":
         return check_degenerate(case)
@@ -141,7 +175,9 @@ def check(case):
     elif route == "object":
         e = [F(v) for v in case["e"]]
         element = se.Rect(float(case["e"][0]), float(case["e"][1]), float(case["e"][2]), float(case["e"][3]))
-        text = se.Viewbox(vbtext, par).transform(element) if par is not None else se.Viewbox(vbtext).transform(element)
+        form = case.get("vbform", "text,par")
+        o.label("viewbox-form:%s" % form)
+        text = make_viewbox(se, form, vbtext, [float(v) for v in case["vb"]], par).transform(element)
     else:
         attrs = ""
         if par is not None:
